@@ -408,6 +408,9 @@ func (x *Exec) zero(t types.Type) Value {
 }
 
 // contract-based call
+// outsideDomain: returned by contractCall when the call is statically outside the contract's precondition
+type outsideDomain struct{}
+
 func (x *Exec) contractCall(callee *types.Func, d *Decl, args []Value, st *State, at ast.Node) Value {
 	pk := x.w.Pkgs[d.Pkg]
 	sig := callee.Type().(*types.Signature)
@@ -431,6 +434,16 @@ func (x *Exec) contractCall(callee *types.Func, d *Decl, args []Value, st *State
 		}
 		ai++
 	}
+	// a call whose precondition folds to false is outside the contract's domain (e.g. a constant mode flag the
+	// contract does not cover): the body is executed instead of the summary
+	for _, c := range d.Clauses {
+		if c.Kind == "requires" && x.evalClause(pk, c, cargs, st).isFalse() {
+			if os.Getenv("GOVC_DEBUG") != "" {
+				fmt.Fprintf(os.Stderr, "DEBUG outside domain: %s requires %s\n", d.Name, c.Text)
+			}
+			return outsideDomain{}
+		}
+	}
 	for _, c := range d.Clauses {
 		switch c.Kind {
 		case "requires":
@@ -440,6 +453,16 @@ func (x *Exec) contractCall(callee *types.Func, d *Decl, args []Value, st *State
 			t := x.evalClause(pk, c, cargs, st)
 			x.oblige("pre", st, mkNot(t), at, d.Name+" panics_iff "+c.Text)
 			st.assume(mkNot(t))
+		}
+	}
+	// a repeated call with identical arguments on the same path denotes the same value (A8: determinism)
+	memoKey := ""
+	if len(d.Modifies) == 0 && len(d.Memo) == 0 && sig.Results().Len() == 1 && os.Getenv("GOVC_NOMEMO") == "" {
+		memoKey = callMemoKey(callee, args)
+		if memoKey != "" {
+			if v, ok := st.memo[memoKey]; ok {
+				return v
+			}
 		}
 	}
 	// frame: fields the callee may modify are havocked (fresh value of the declared shape)
@@ -500,6 +523,14 @@ func (x *Exec) contractCall(callee *types.Func, d *Decl, args []Value, st *State
 			if d.nullable() {
 				s.Nil = freshVar(name+".nil", SBool)
 			}
+			// string fields defined by `ensures result.f == E`
+			for _, fn := range sortedFieldNames(s.F) {
+				if sv, isStr := s.F[fn].(*StrV); isStr && sv.Opaque {
+					if dv := x.definingEnsuresField(pk, d, cargs, st, fn); dv != nil {
+						s.F[fn] = dv
+					}
+				}
+			}
 		}
 		rvals = []Value{res}
 	default:
@@ -519,8 +550,20 @@ func (x *Exec) contractCall(callee *types.Func, d *Decl, args []Value, st *State
 				gvals = append(gvals, IntV{freshVar("g_"+c.SplitLo, SInt)})
 			case "bool":
 				gvals = append(gvals, BoolV{freshVar("g_"+c.SplitLo, SBool)})
-			default:
+			case "float64":
 				gvals = append(gvals, FloatV{freshVar("g_"+c.SplitLo, SReal)})
+			default:
+				// a ghost of a library struct type: an unknown object of that type (with its invariant)
+				tn := strings.TrimPrefix(c.SplitHi, "*")
+				if obj := pk.Types.Scope().Lookup(tn); obj != nil {
+					var gt types.Type = obj.Type()
+					if strings.HasPrefix(c.SplitHi, "*") {
+						gt = types.NewPointer(gt)
+					}
+					gvals = append(gvals, x.freshValue("g_"+c.SplitLo, gt, 0, st, false))
+				} else {
+					gvals = append(gvals, FloatV{freshVar("g_"+c.SplitLo, SReal)})
+				}
 			}
 		}
 	}
@@ -530,7 +573,44 @@ func (x *Exec) contractCall(callee *types.Func, d *Decl, args []Value, st *State
 			st.assume(t)
 		}
 	}
+	if memoKey != "" {
+		if _, isRef := res.(RefV); !isRef {
+			if st.memo == nil {
+				st.memo = map[string]Value{}
+			}
+			st.memo[memoKey] = res
+		}
+	}
 	return res
+}
+
+// callMemoKey: identity of a call (callee and argument values); "" when an argument has no stable identity.
+func callMemoKey(callee *types.Func, args []Value) string {
+	var sb strings.Builder
+	sb.WriteString(callee.FullName())
+	for _, a := range args {
+		switch v := a.(type) {
+		case IntV:
+			fmt.Fprintf(&sb, "|i%d", v.T.id)
+		case BoolV:
+			fmt.Fprintf(&sb, "|b%d", v.T.id)
+		case FloatV:
+			fmt.Fprintf(&sb, "|f%d", v.T.id)
+		case *StructV:
+			fmt.Fprintf(&sb, "|s%p", v)
+		case NilV:
+			sb.WriteString("|nil")
+		case *StrV:
+			if l, ok := v.isLit(); ok {
+				fmt.Fprintf(&sb, "|l%q", l)
+			} else {
+				fmt.Fprintf(&sb, "|t%p", v)
+			}
+		default:
+			return ""
+		}
+	}
+	return sb.String()
 }
 
 func (x *Exec) requireNonNil(v Value, st *State, at ast.Node, what string) {
@@ -2379,6 +2459,11 @@ func (x *Exec) pkgVar(o *types.Var) Value {
 
 // definingEnsures: value E of the first clause `ensures result == E` of a contract (nil if there is none).
 func (x *Exec) definingEnsures(pk *Pkg, d *Decl, cargs []Value, st *State) (v Value) {
+	return x.definingEnsuresField(pk, d, cargs, st, "")
+}
+
+// definingEnsuresField: the same for `ensures result.field == E` (field == "" means the result itself).
+func (x *Exec) definingEnsuresField(pk *Pkg, d *Decl, cargs []Value, st *State, field string) (v Value) {
 	defer func() {
 		if r := recover(); r != nil {
 			if _, ok := r.(unsupported); ok {
@@ -2404,9 +2489,20 @@ func (x *Exec) definingEnsures(pk *Pkg, d *Decl, cargs []Value, st *State) (v Va
 		if !ok || be.Op != token.EQL {
 			continue
 		}
-		id, ok := be.X.(*ast.Ident)
-		if !ok || id.Name != "result" {
-			continue
+		if field == "" {
+			id, ok := be.X.(*ast.Ident)
+			if !ok || id.Name != "result" {
+				continue
+			}
+		} else {
+			se, ok := be.X.(*ast.SelectorExpr)
+			if !ok || se.Sel.Name != field {
+				continue
+			}
+			id, ok := se.X.(*ast.Ident)
+			if !ok || id.Name != "result" {
+				continue
+			}
 		}
 		// evaluate the right-hand side with the clause function's parameters bound (result is not mentioned in it)
 		fr := &frame{fn: fd, pkg: pk}
